@@ -3,6 +3,7 @@ NEXT Next
 INVARIANT EmitCase
 CHECK_DEADLOCK FALSE
 CONSTANTS
+  Rich = TRUE
   AllModeLen = 3
   L = 5
   Schedules = {"each", "glue_next", "glue_both", "glue_next2"}
